@@ -99,11 +99,11 @@ def _serve_weight(h):
     n = h.split("::")[-1]
     honoured = "_absent" in n or ("_same" in n and ("_estrong_" in n or "_ecomma_" in n))
     if (n.startswith("serve_single_") and honoured) or (n.startswith("serve_multi_") and honoured):
-        return 8
-    return 4
+        return 7
+    return 2
 
 
-def unit_serve(select, panic_tags=("C13",), precond=False, mp=None, prep=False, qkey=None, qcap=1):
+def unit_serve(select, panic_tags=("C13",), precond=False, mp=None, prep=False, qkey=None, qcap=1, quick=None):
     """select(cfg) -> bool picks generated serve_cfg instances; precond adds the precond_gNN groups;
     mp(cfg) -> bool picks one-poll instances of the MultipartStream state machine.
     qkey: in the quick tier at most `qcap` instances per value of qkey(cfg) are kept (serve-level
@@ -111,7 +111,14 @@ def unit_serve(select, panic_tags=("C13",), precond=False, mp=None, prep=False, 
 
     def harnesses(tier, meta):
         names = [n for n, c in sorted(meta["serve"].items()) if select and select(c)]
-        if tier == "quick" and qkey:
+        if tier == "quick" and quick is not None:
+            # the per-change budget (a check is stopped after 900 s): an explicit list with at
+            # most two of the 350-700 s instances (206 / multipart), which run concurrently
+            missing = [n for n in quick if n not in meta["serve"]]
+            if missing:
+                raise RuntimeError("quick list names unknown serve instances: %s" % missing)
+            names = list(quick)
+        elif tier == "quick" and qkey:
             seen = {}
             kept = []
             for n in names:
@@ -158,6 +165,41 @@ MODEL_ASSUMPTIONS = [
 ]
 
 MP_NOTE = 'multipart bodies are decomposed (DESIGN.md section 5b): serve() hands over the initial state of the MultipartStream state machine (checked in the serve_multi_* instances, with prepare_multipart replaced by a recording stand-in), the real prepare_multipart is verified alone (prep_unit_*: announced length = sum of part headers + part lengths + closing delimiter in 128 bits, part header text), and ONE poll of MultipartStream from every state satisfying its invariant is verified in mp_step_* (frame kind/order/position, remaining reduced by the frame length, Pending keeps the open stream, error fuses, end absorbing, exact hint); single-range 206 bodies are checked before the first poll (built over exactly a..b, exact hint), their delivery is the exactlen_* stream-level harness'
+
+# Serve-level instances of the quick tier, per property (see unit_serve: `quick`).
+QUICK_SERVE = {'C01': ['serve_full_get_enone_m0_h0_absent_hd',
+         'serve_full_get_estrong_m1_h2_absent_bd',
+         'serve_unsat_get_enone_m0_h0_absent',
+         'serve_m405_post_estrong_m1_h1_absent',
+         'serve_single_get_enone_m0_h0_absent',
+         'serve_multi_get_estrong_m1_h1_absent_r2_rev'],
+ 'C02': ['serve_single_get_enone_m0_h0_absent',
+         'serve_single_get_estrong_m1_h2_same',
+         'serve_full_get_ecomma_m0_h3_absent_hd',
+         'serve_full_get_enone_m0_h0_absent_bd'],
+ 'C03': ['serve_unsat_get_estrong_m1_h2_absent', 'serve_single_get_eweak_m1_h1_absent', 'serve_multi_get_estrong_m1_h1_absent_r2_rev'],
+ 'C05': ['serve_single_get_estrong_m1_h2_same',
+         'serve_multi_get_estrong_m1_h2_same_r2_req',
+         'serve_single_get_eweak_m1_h1_same_hd',
+         'serve_single_get_estrong_m1_h1_other_hd',
+         'serve_single_get_estrong_m1_h1_weak_hd',
+         'serve_single_get_estrong_m1_h1_date_hd',
+         'serve_single_get_enone_m0_h1_same_hd'],
+ 'C06': ['serve_multi_get_estrong_m1_h1_absent_r2_rev', 'serve_multi_head_estrong_m0_h0_absent_r2_req', 'serve_multi_get_estrong_m0_h1_other_r2_hd'],
+ 'C12': ['serve_full_get_enone_m0_h0_absent_bd', 'serve_full_get_eweak_m1_h1_absent_hd', 'serve_multi_get_estrong_m0_h0_absent_r2_req'],
+ 'C13': ['serve_m405_post_estrong_m1_h1_absent', 'serve_m405_ext_estrong_m1_h1_absent', 'serve_unsat_get_enone_m0_h0_absent'],
+ 'C14': ['serve_full_get_ecomma_m0_h3_absent_hd',
+         'serve_full_get_estrong_m1_h2_absent_hd',
+         'serve_full_head_eweak_m1_h1_absent',
+         'serve_unsat_get_estrong_m1_h2_absent',
+         'serve_single_get_estrong_m1_h2_absent',
+         'serve_single_head_eweak_m1_h1_absent'],
+ 'C15': ['serve_full_head_estrong_m1_h2_absent',
+         'serve_unsat_head_enone_m0_h0_absent',
+         'serve_single_head_enone_m0_h0_absent',
+         'serve_multi_head_estrong_m0_h0_absent_r2_req',
+         'serve_single_head_estrong_m1_h1_other',
+         'serve_multi_head_estrong_m0_h1_other_r2_req']}
 
 PROPS = {}
 NOT_APPLICABLE = {
@@ -292,7 +334,7 @@ def quick_cap(sel, n):
 
 PROPS["C01"] = {
     "units": lambda tier, seed: [
-        unit_serve(g("full", "single", "multi", "unsat", "m405", methods=("GET", "POST", "EXT"), ir=("absent",)), mp=lambda c: True, prep=True,
+        unit_serve(quick=QUICK_SERVE['C01'], select=g("full", "single", "multi", "unsat", "m405", methods=("GET", "POST", "EXT"), ir=("absent",)), mp=lambda c: True, prep=True,
                    qkey=lambda c: (c["group"], c["method"], c["focus"])),
         unit_body(["exactlen_honour"]),
     ],
@@ -308,7 +350,7 @@ PROPS["C01"] = {
     "assumptions": MODEL_ASSUMPTIONS,
 }
 PROPS["C02"] = dict(PROPS["C01"], units=lambda tier, seed: [
-    unit_serve(g("full", "single", methods=("GET",)), qkey=lambda c: (c["group"], c["focus"], c["ir"] if c["ir"] in ("absent", "same") else "x")),
+    unit_serve(quick=QUICK_SERVE['C02'], select=g("full", "single", methods=("GET",)), qkey=lambda c: (c["group"], c["focus"], c["ir"] if c["ir"] in ("absent", "same") else "x")),
     unit_body(["exactlen_honour"]),
 ])
 PROPS["C02"]["explanation"] = ("Same executions as C01 for complete and single-range GET responses: the harness entity's chunks "
@@ -320,7 +362,7 @@ PROPS["C02"]["explanation"] = ("Same executions as C01 for complete and single-r
 PROPS["C03"] = {
     "units": lambda tier, seed: [
         unit_range(),
-        unit_serve(g("unsat", "single", "multi", ir=("absent",)), panic_tags=("C13", "C03"), qkey=lambda c: c["group"] if c["method"] == "GET" else "skip"),
+        unit_serve(quick=QUICK_SERVE['C03'], select=g("unsat", "single", "multi", ir=("absent",)), panic_tags=("C13", "C03"), qkey=lambda c: c["group"] if c["method"] == "GET" else "skip"),
     ],
     "explanation": "range::parse is executed symbolically on generated skeleton texts (1..3 specs, each of the three "
     "forms, optional whitespace after commas) whose numbers are free 64-bit values (integer parser stubbed) "
@@ -355,7 +397,7 @@ PROPS["C04"] = {
 
 PROPS["C05"] = {
     "units": lambda tier, seed: [
-        unit_serve(g("single", "multi", "unsat", ir=("same", "other", "weak", "date")), panic_tags=("C13",),
+        unit_serve(quick=QUICK_SERVE['C05'], select=g("single", "multi", "unsat", ir=("same", "other", "weak", "date")), panic_tags=("C13",),
                    qkey=_c05_key, qcap=1),
         unit_etag(["etag_eq_sym"]),
     ],
@@ -370,7 +412,7 @@ PROPS["C05"] = {
 }
 
 PROPS["C06"] = {
-    "units": lambda tier, seed: [unit_serve(g("multi"), mp=lambda c: True, prep=True, qkey=lambda c: (c["method"], c["ir"] == "other"))],
+    "units": lambda tier, seed: [unit_serve(quick=QUICK_SERVE['C06'], select=g("multi"), mp=lambda c: True, prep=True, qkey=lambda c: (c["method"], c["ir"] == "other"))],
     "explanation": "serve() with two (thorough: three) symbolic satisfiable ranges (overlapping, adjacent, duplicated, out of order all "
     "allowed), entity headers 0..2, with/without matching If-Range: Content-Type, absence of top-level Content-Range, ranges handed on in request order, "
     "entity headers in the parts exactly without If-Range; " + MP_NOTE + "; 413 only if the length cannot be expressed (prep_unit_*).",
@@ -422,7 +464,7 @@ PROPS["C12"] = {
     "units": lambda tier, seed: [
         unit_body(["body_from", "exactlen_honour"]),
         unit_chunker(ch_c12),
-        unit_serve(lambda c: c["group"] in ("full", "multi") and c["method"] == "GET" and c["ir"] == "absent" and c["nhdr"] <= 1, mp=lambda c: True,
+        unit_serve(quick=QUICK_SERVE['C12'], select=lambda c: c["group"] in ("full", "multi") and c["method"] == "GET" and c["ir"] == "absent" and c["nhdr"] <= 1, mp=lambda c: True,
                    qkey=lambda c: (c["group"], c["focus"])),
     ],
     "explanation": "size_hint()/is_end_stream() are sampled before every poll in the body and serve harnesses (exact hints equal announced minus "
@@ -437,7 +479,7 @@ PROPS["C12"] = {
 PROPS["C13"] = {
     "units": lambda tier, seed: [
         unit_range(),
-        unit_serve(g("m405", "unsat", methods=("POST", "EXT", "GET")), qkey=lambda c: (c["group"], c["method"])),
+        unit_serve(quick=QUICK_SERVE['C13'], select=g("m405", "unsat", methods=("POST", "EXT", "GET")), qkey=lambda c: (c["group"], c["method"])),
         unit_etag(["etag_list_sym", "etag_match_im", "etag_match_inm", "etag_match_im_noetag", "etag_match_inm_noetag"]),
     ],
     "explanation": "Kani's built-in checks (arithmetic overflow, slice bounds, unwrap/expect, unreachable) are the oracle: the Range parser over all "
@@ -450,7 +492,7 @@ PROPS["C13"] = {
 }
 PROPS["C14"] = {
     "units": lambda tier, seed: [
-        unit_serve(lambda c: c["group"] in ("full", "unsat") or (c["group"] == "single" and c["ir"] in ("absent", "same")), precond=True,
+        unit_serve(quick=QUICK_SERVE['C14'], select=lambda c: c["group"] in ("full", "unsat") or (c["group"] == "single" and c["ir"] in ("absent", "same")), precond=True,
                    qkey=lambda c: (c["group"], c["method"], c["focus"], c["has_mtime"]) if c["group"] == "full" else (c["group"], c["method"])),
     ],
     "explanation": "serve(): Accept-Ranges, ETag bytes, Date/Last-Modified presence, Last-Modified = min(mtime, now) truncated <= Date, entity headers on "
@@ -463,7 +505,7 @@ PROPS["C14"] = {
 }
 PROPS["C15"] = {
     "units": lambda tier, seed: [
-        unit_serve(g("full", "single", "multi", "unsat", methods=("HEAD",)), qkey=lambda c: (c["group"], c["ir"] == "absent")),
+        unit_serve(quick=QUICK_SERVE['C15'], select=g("full", "single", "multi", "unsat", methods=("HEAD",)), qkey=lambda c: (c["group"], c["ir"] == "absent")),
         unit_gzip(["sb_build_gzip", "sb_build_absent"]),
     ],
     "explanation": "Every serve() configuration is also executed with HEAD: same status/headers assertions as GET, empty body with exact hint 0, zero "
